@@ -135,6 +135,8 @@ def _load_units(modname):
 
 def _worker(task):
     (modname, prop, uidx, cidx, cfg, forced, max_depth, deadline, timeout_ms, witness_every, seed, max_paths) = task
+    if deadline is not None and time.time() > deadline:      # budget already spent: do not start this subtree
+        return {"unit": None, "uidx": uidx, "cidx": cidx, "skipped": True}
     mod = _load_units(modname)
     unit = mod.units(prop)[uidx]
     E = SymEngine(timeout_ms=unit.timeout_ms or timeout_ms)
@@ -306,6 +308,7 @@ def run_property(modname, prop, tier, seed, nproc=None, budget_s=None):
     results = []
     ctx = mp.get_context("fork")
     crashes = []
+    skipped = [0]
     with ctx.Pool(nproc) as pool:
         # dynamic queue: every finished task may hand back forced prefixes (sharding / work splitting)
         running = [(t, pool.apply_async(_worker, (t,))) for t in tasks]
@@ -321,8 +324,14 @@ def run_property(modname, prop, tier, seed, nproc=None, budget_s=None):
                 if "crash" in st:
                     crashes.append(st)
                     continue
+                if st.get("skipped"):
+                    skipped[0] += 1
+                    continue
                 results.append(st)
                 for pf in st.get("truncated", []):
+                    if time.time() > deadline:
+                        skipped[0] += 1
+                        continue
                     nt = t[:5] + (pf, None) + t[7:]
                     still.append((nt, pool.apply_async(_worker, (nt,))))
             running = still
@@ -338,7 +347,7 @@ def run_property(modname, prop, tier, seed, nproc=None, budget_s=None):
     per_unit = {}
     violations, witness_bad, samples, reasons, tags = [], [], [], {}, {}
     distinct = set()
-    exhausted = True
+    exhausted = skipped[0] == 0
     nonlinear = False
     for st in results:
         pu = per_unit.setdefault(st["unit"], {"paths": 0, "queries": 0, "nontrivial": 0, "solver_s": 0.0, "configs": set(),
@@ -475,11 +484,11 @@ def finish(prop, tier, seed, R, level_note=""):
     print(f"[{prop} {tier}] paths={tot['paths']} nontrivial={tot['nontrivial']} queries={tot['queries']} "
           f"solver_s={tot['solver_s']:.1f} inconclusive={tot['inconclusive']} witness_ok={tot['witness_ok']} "
           f"violating_paths={len(R['violations'])} (new={len(new)}) exhaustive={exhaustive} wall={R['wall']:.1f}s")
-    if harness_error:
-        for h in harness_error:
-            print("HARNESS-ERROR:", h)
-        return 3
-    return 1 if new else 0
+    for h in harness_error:
+        print("HARNESS-ERROR:", h)
+    if new:             # violations are concrete re-executions of the real code: they stand whatever else went wrong
+        return 1
+    return 3 if harness_error else 0
 
 
 def _z3v():
